@@ -16,6 +16,10 @@ Spec: XarrayLabels.tla (on top of MapDenote.tla); model: MC_XarrayLabels.tla.   
    selection by value (2-D and tuple-valued coordinates) is compared with the exported selection.
 3. Seeded random pipelines (gen_map, mapped root inputs of rank <= 2) go through the same TLC model (Mode = "file") and
    the same comparison; cases outside the stated scope of the specification (Supported) are skipped and counted.
+4. Two-run histories: a seeded sample of universe cases is mapped TWICE by the same Pipeline object into the SAME run
+   folder in one process - map(inputs A) -> datasets -> map(inputs B, cleanup=True) -> datasets - where B is A with every
+   atom renamed (same shapes).  The expectation for B is exported by TLC like any other case (Mode = "file"); both datasets
+   of the second run are judged against it (a loader that remembers the first run returns A's coordinates with B's data).
 Python only drives the real code, projects datasets and compares with what TLC printed.
 """
 from __future__ import annotations
@@ -51,6 +55,7 @@ CONSTANTS MaxSize = {maxsize} MinSize = {minsize} Rich = {rich} Shard = {shard} 
 INVARIANT {invs}
 """
 PROCS = min(8, os.cpu_count() or 4)
+SECOND = "second-run-same-folder"      # history class: a second map of the same pipeline into the same run folder
 
 
 # ---- TLC side -----------------------------------------------------------------------------------------
@@ -171,66 +176,77 @@ def _select(ds, pick: dict):
     return ds.isel({str(d): int(p) for d, p in zip(c.dims, pos[0])}), "by-value"
 
 
-def observe(job: dict) -> dict:
-    """Run the real map of one case and build / project every dataset the exported views ask for."""
+def _observe_run(pl, case: dict, kinds: dict, storage: str, tmp: str, want) -> dict:
+    """One map run of `case` into run folder `tmp` (cleanup=True) + every dataset the wanted views ask for."""
     from pipefunc.map import load_xarray_dataset
     from pipefunc.map.xarray import xarray_dataset_from_results
+    obs: dict[str, Any] = {"map": None, "views": []}
+    try:
+        inp = pmap.inputs_to_py(case["inputs"], kinds)
+        res = pl.map(inp, run_folder=tmp, storage=storage, parallel=False, cleanup=True)
+    except Exception as ex:  # noqa: BLE001
+        obs["map"] = _exc(ex)
+        return obs
+    obs["outputs"] = sorted(str(k) for k in res)
+    for v in case["views"]:
+        if want is not None and [sorted(v["sel"]), v["li"]] not in want:
+            continue
+        o: dict[str, Any] = {"sel": sorted(v["sel"]), "li": v["li"], "all": v["all"], "ds": {}, "exc": {}, "picks": []}
+        built = {}
+        apis = ["from_results", "load"] if v["all"] else ["load_one"]
+        for api in apis:
+            try:
+                if api == "from_results":
+                    ds = xarray_dataset_from_results(inp, res, pl, load_intermediate=v["li"])
+                elif api == "load":
+                    ds = load_xarray_dataset(run_folder=tmp, load_intermediate=v["li"])
+                else:
+                    ds = load_xarray_dataset(*v["sel"], run_folder=tmp, load_intermediate=v["li"])
+                built[api] = ds
+            except Exception as ex:  # noqa: BLE001
+                o["exc"][api] = _exc(ex)
+        for api, ds in built.items():
+            o["ds"][api] = project(ds)         # a failure here is a harness failure, not a verdict
+        if len(built) == 2:
+            try:
+                o["identical"] = bool(built["from_results"].identical(built["load"]))
+            except Exception as ex:  # noqa: BLE001
+                o["identical"] = False
+                o["exc"]["identical"] = _exc(ex)
+        if v["all"] and "from_results" in built:
+            ds = built["from_results"]
+            for p in v["picks"]:
+                if p["coord"] not in ds.coords:
+                    continue
+                try:
+                    sub, how = _select(ds, p)
+                except Exception as ex:  # noqa: BLE001
+                    o["picks"].append({"coord": p["coord"], "exc": _exc(ex)})
+                    continue
+                o["picks"].append({"coord": p["coord"], "how": how, "ds": project(sub)})
+        obs["views"].append(o)
+    return obs
+
+
+def observe(job: dict) -> dict:
+    """Run the real map of one case and build / project every dataset the exported views ask for.  With job["case_b"]
+    (the same description with other input values of the same shapes) the history is
+        map(inputs A) -> datasets -> map(inputs B, SAME pipeline object, SAME run folder, cleanup=True) -> datasets
+    in one process; obs["second"] holds the observation of the second run (to be judged against the export for B)."""
     case, kinds, storage = job["case"], job["kinds"], job["storage"]
-    tdesc = case["desc"]
-    pdesc = job.get("pdesc") or pmap.tla_desc_to_py(tdesc)
+    pdesc = job.get("pdesc") or pmap.tla_desc_to_py(case["desc"])
     build.LOG.clear()
     tmp = tempfile.mkdtemp(prefix="pfverif_c19_")
-    obs: dict[str, Any] = {"map": None, "views": []}
     try:
         with contextlib.redirect_stdout(io.StringIO()), warnings.catch_warnings():
             warnings.simplefilter("ignore")
             try:
                 pl = build.make_pipeline(pdesc)
-                inp = pmap.inputs_to_py(case["inputs"], kinds)
-                res = pl.map(inp, run_folder=tmp, storage=storage, parallel=False)
             except Exception as ex:  # noqa: BLE001
-                obs["map"] = _exc(ex)
-                return obs
-            all_names = sorted(str(k) for k in res)
-            obs["outputs"] = all_names
-            want = job.get("want")
-            for v in case["views"]:
-                if want is not None and [sorted(v["sel"]), v["li"]] not in want:
-                    continue
-                o: dict[str, Any] = {"sel": sorted(v["sel"]), "li": v["li"], "all": v["all"], "ds": {}, "exc": {}, "picks": []}
-                built = {}
-                apis = ["from_results", "load"] if v["all"] else ["load_one"]
-                for api in apis:
-                    try:
-                        if api == "from_results":
-                            ds = xarray_dataset_from_results(inp, res, pl, load_intermediate=v["li"])
-                        elif api == "load":
-                            ds = load_xarray_dataset(run_folder=tmp, load_intermediate=v["li"])
-                        else:
-                            ds = load_xarray_dataset(*v["sel"], run_folder=tmp, load_intermediate=v["li"])
-                        built[api] = ds
-                    except Exception as ex:  # noqa: BLE001
-                        o["exc"][api] = _exc(ex)
-                for api, ds in built.items():
-                    o["ds"][api] = project(ds)         # a failure here is a harness failure, not a verdict
-                if len(built) == 2:
-                    try:
-                        o["identical"] = bool(built["from_results"].identical(built["load"]))
-                    except Exception as ex:  # noqa: BLE001
-                        o["identical"] = False
-                        o["exc"]["identical"] = _exc(ex)
-                if v["all"] and "from_results" in built:
-                    ds = built["from_results"]
-                    for p in v["picks"]:
-                        if p["coord"] not in ds.coords:
-                            continue
-                        try:
-                            sub, how = _select(ds, p)
-                        except Exception as ex:  # noqa: BLE001
-                            o["picks"].append({"coord": p["coord"], "exc": _exc(ex)})
-                            continue
-                        o["picks"].append({"coord": p["coord"], "how": how, "ds": project(sub)})
-                obs["views"].append(o)
+                return {"map": _exc(ex), "views": []}
+            obs = _observe_run(pl, case, kinds, storage, tmp, job.get("want"))
+            if job.get("case_b") is not None and obs["map"] is None:
+                obs["second"] = _observe_run(pl, job["case_b"], kinds, storage, tmp, job.get("want"))
         return obs
     finally:
         shutil.rmtree(tmp, ignore_errors=True)
@@ -302,9 +318,14 @@ def compare(case: dict, obs: dict) -> list[dict]:
 def work(job: dict) -> dict:
     obs = observe(job)
     mism = compare(job["case"], obs)
-    r = {"k": job["k"], "mismatches": mism, "ncoords": max((len(p["coords"]) for o in obs["views"] for p in o["ds"].values()), default=0),
-         "npicks": sum(1 for o in obs["views"] for p in o["picks"] if "exc" not in p),
-         "ndatasets": sum(len(o["ds"]) for o in obs["views"])}
+    allobs = [obs]
+    if "second" in obs:
+        allobs.append(obs["second"])
+        mism += [{**m, "history": SECOND} for m in compare(job["case_b"], obs["second"])]
+    r = {"k": job["k"], "mismatches": mism,
+         "ncoords": max((len(p["coords"]) for ob in allobs for o in ob["views"] for p in o["ds"].values()), default=0),
+         "npicks": sum(1 for ob in allobs for o in ob["views"] for p in o["picks"] if "exc" not in p),
+         "ndatasets": sum(len(o["ds"]) for ob in allobs for o in ob["views"]), "second": "second" in obs}
     if job.get("keep_obs") or mism:
         r["obs"] = obs
     return r
@@ -340,7 +361,7 @@ def features(tdesc: dict) -> dict:
 def signature(m: dict, tdesc: dict) -> dict:
     f = features(tdesc)
     sig = {"check": "labels", "clause": m["clause"], "root_axis_only_colon": f["root_axis_only_colon"],
-           "zipped_rank2_inputs": f["zipped_rank2_inputs"]}
+           "zipped_rank2_inputs": f["zipped_rank2_inputs"], "history": m.get("history", "single-run")}
     if "cls" in m:
         sig["cls"] = m["cls"]
         sig["func"] = m["func"]
@@ -357,9 +378,13 @@ def report(ctx: Ctx, job: dict, res: dict) -> None:
             continue
         seen.add(key)
         ms = [pmap.ms_string(f["ms"]) if f["has_ms"] else None for f in case["desc"]["funcs"]]
-        ctx.violation(sig, f"{m['clause']} [{m['api']}, load_intermediate={m['li']}, outputs={m['sel']}]: {m['detail'][:300]}; mapspecs={ms}",
-                      {"desc": case["desc"], "pdesc": job.get("pdesc"), "inputs": case["inputs"], "order": case["order"],
-                       "kinds": job["kinds"], "storage": job["storage"], "mismatch": m})
+        hist = " after a SECOND map into the same run folder (judged against that run's inputs)" if m.get("history") == SECOND else ""
+        wit = {"desc": case["desc"], "pdesc": job.get("pdesc"), "inputs": case["inputs"], "order": case["order"],
+               "kinds": job["kinds"], "storage": job["storage"], "mismatch": m}
+        if job.get("case_b") is not None:
+            wit["inputs_b"] = job["case_b"]["inputs"]
+        ctx.violation(sig, f"{m['clause']} [{m['api']}, load_intermediate={m['li']}, outputs={m['sel']}]{hist}: {m['detail'][:300]}; mapspecs={ms}",
+                      wit)
 
 
 def nontrivial(res: dict) -> bool:
@@ -446,6 +471,39 @@ def selftest(ctx: Ctx, jobs: list[dict], results: list[dict]) -> None:
     ctx.selftest("uncorrupted cases accepted", base == [], f"rejected={base}")
 
 
+def selftest_second(ctx: Ctx, bjobs: list[dict], bresults: list[dict]) -> None:
+    """The second run is really judged against ITS inputs: accepted second-run observations must be rejected when judged
+    against the first run's export (what a stale, memoised loader would return), on values only, and vice versa."""
+    good = [(j, r) for j, r in zip(bjobs, bresults) if "obs" in r and not r["mismatches"] and "second" in r["obs"]
+            and any(v["all"] and v["cands"] for v in j["case"]["views"])][:6]
+    if len(good) < 3:
+        if any(r["mismatches"] for r in bresults):
+            return                      # the run is red anyway; the violations are reported
+        raise MachineryError("self-test (second run): fewer than 3 accepted two-run histories with coordinates")
+    swapped = [sorted({m["clause"] for m in compare(j["case"], r["obs"]["second"])}) for j, r in good]
+    ok = all(cl and set(cl) <= {"coordinate-values", "variable-values", "selection", "sel-raises"} for cl in swapped)
+    ctx.selftest("second-run observation judged against the FIRST run's export is rejected (values only)", ok, f"clauses={swapped}")
+    straight = [compare(j["case_b"], r["obs"]["second"]) for j, r in good]
+    ctx.selftest("second-run observation judged against its own export is accepted", all(not m for m in straight), "")
+
+
+def renamed(v: dict) -> dict:
+    """The same value with every atom renamed ("@a_0" -> "@B.a_0"): other input values of the same shapes."""
+    if v["f"].startswith("@"):
+        return {"f": "@B." + v["f"][1:], "a": []}
+    return {"f": v["f"], "a": [renamed(x) for x in v["a"]]}
+
+
+def rerun_items(rng: random.Random, cases: list[dict], n: int, base: int) -> list[dict]:
+    """A seeded sample of universe cases to be run twice into the same folder; the second run's inputs B are the first
+    run's with every atom renamed.  The expectation for B is exported by TLC (Mode = "file") like any other case."""
+    with_coords = [k for k, c in enumerate(cases) if any(v["all"] and v["cands"] for v in c["views"])]
+    rest = [k for k in range(len(cases)) if k not in set(with_coords)]
+    pick = rng.sample(with_coords, min(len(with_coords), n - n // 8)) + rng.sample(rest, min(len(rest), n // 8))
+    return [{"id": base + m, "desc": cases[k]["desc"], "inputs": [[nm, renamed(v)] for nm, v in cases[k]["inputs"]],
+             "order": cases[k]["order"], "_k": k} for m, k in enumerate(sorted(pick))]
+
+
 def random_items(rng: random.Random, n: int) -> list[dict]:
     items = []
     tries = 0
@@ -471,7 +529,9 @@ def run(ctx: Ctx) -> None:
                 "the TLA+-defined universe MC_XarrayLabels (= the C01 universe MC_MapDenote restricted to mapped inputs of rank "
                 "<= 2: producer with 1-2 mapped inputs over axes i,j,k incl. ':', zip / outer product, every output axis order, "
                 "internal axis at every position, optional 2nd output, generator; consumers none/element-wise/partial/full/zip "
-                "with a fresh input) + seeded random pipelines of 1-4 functions with mapped root inputs of rank <= 2; "
+                "with a fresh input) + seeded random pipelines of 1-4 functions with mapped root inputs of rank <= 2 + a seeded "
+                "sample of universe cases mapped twice into the same run folder with renamed input values (second run judged "
+                "against its own inputs); "
                 "non-trivial = the dataset has at least one coordinate and two datasets were compared")
     ctx.assumptions = ["TLC and the JSON/term encoding are trusted", "xarray's own semantics (merge(compat='override'), sel, "
                        "set_xindex, identical) are trusted", "values are opaque terms (object arrays); dtype coercions not modelled",
@@ -521,10 +581,34 @@ def run(ctx: Ctx) -> None:
                 "coords": {c["name"]: c["axes"] for c in v["cands"]}, "acceptable": v["alts"]})
     selftest(ctx, jobs, results)
 
-    # seeded random pipelines through the same model (Mode = "file")
+    # seeded random pipelines through the same model (Mode = "file"); in the same TLC runs: the expectations for the
+    # second run (inputs B) of a seeded sample of universe cases that are mapped twice into the same run folder
     items = random_items(rng, 60 if quick else 800)
-    exported = export_file_cases(ctx, [{k: v for k, v in it.items() if not k.startswith("_")} for it in items], "random",
+    RERUN = 1_000_000
+    again = rerun_items(rng, cases, 40 if quick else 300, RERUN)
+    exported = export_file_cases(ctx, [{k: v for k, v in it.items() if not k.startswith("_")} for it in items + again], "random",
                                  chunk=60 if quick else 250, par=2 if quick else 4)
+    bjobs = []
+    for it in again:
+        a, b = cases[it["_k"]], exported[it["id"]]
+        if not b["supported"]:
+            raise MachineryError("a universe case with renamed input values is not supported")
+        n = len(bjobs)
+        bjobs.append({"k": n, "case": a, "case_b": b, "storage": ("dict", "file_array")[n % 2],
+                      "kinds": {nm: ("ndarray", "list")[(n // 2) % 2] for nm, _ in a["inputs"]}, "keep_obs": n < 12,
+                      "want": [[sorted(v["sel"]), v["li"]] for v in a["views"] if v["all"]]})
+    bresults = run_jobs(bjobs)
+    for j, r in zip(bjobs, bresults):
+        if not r["second"] and not r["mismatches"]:
+            raise MachineryError("two-run history: the second run was not observed")
+        ctx.case({"d": j["case"]["desc"], "i": j["case"]["inputs"], "b": j["case_b"]["inputs"], "s": j["storage"], "k": j["kinds"]},
+                 nontrivial(r))
+        ctx.traces_validated += 0 if r["mismatches"] else 1
+        report(ctx, j, r)
+    ctx.extra["two_run_same_folder_histories"] = len(bjobs)
+    ctx.extra["datasets_compared"] += sum(r["ndatasets"] for r in bresults)
+    ctx.extra["selections_compared"] += sum(r["npicks"] for r in bresults)
+    selftest_second(ctx, bjobs, bresults)
     rjobs = []
     skipped = 0
     for it in items:
@@ -559,6 +643,9 @@ def replay(rep: dict) -> int:
             return 2
         job = {"k": 0, "case": case, "pdesc": w.get("pdesc"), "kinds": w["kinds"], "storage": w["storage"], "keep_obs": True,
                "want": None}
+        if w.get("inputs_b") is not None:           # two-run history: second map into the same folder with inputs B
+            job["case_b"] = export_file_cases(ctx, [dict(item, inputs=w["inputs_b"])], "replay_b", count=False)[0]
+            job["want"] = [[sorted(v["sel"]), v["li"]] for v in case["views"] if v["all"]]
         res = work(job)
         for m in res["mismatches"]:
             print({k: v for k, v in m.items() if k != "msg"})
